@@ -29,7 +29,7 @@ RULE = ("seeded random configurations: non-constant pilot vectors shorter than N
 REQUIRED = ["tile_checked", "tile_nonconstant_pilot", "prefix_checked:nonnegmean", "prefix_checked:assertion",
             "comparison_checked", "polling_checked", "interleave_checked", "contest_max_checked", "audit_max_checked",
             "estimate_strictly_between_1_and_N", "never_crossed_returns_N", "random_order_false_cases",
-            "contract:Assertion.find_sample_size", "raire_estimator_checked"]
+            "contract:Assertion.find_sample_size", "raire_estimator_checked", "comparison_checked_assorter_bound_not_1"]
 ASSUMPTIONS = ["int(1/r) is the documented spacing of assumed errors", "n_big >= 1 for interleave_values (a polling "
                "assertion has winner tally > loser tally >= 0)", "rates are always passed explicitly for comparison audits"]
 N_CASES = {"quick": 64000, "thorough": 512000}
@@ -224,10 +224,20 @@ def run_prefix_assertion(case, rng, rec):
                 return
 
 
-def make_contest(rng, audit_type, N, ncand=3, risk=None):
+def make_contest(rng, audit_type, N, ncand=3, risk=None, share=None):
     from shangrla.core.Audit import Assertion, Audit, Contest
     from shangrla.core.NonnegMean import NonnegMean
     cands = ["A", "B", "C", "D"][:ncand]
+    if share is not None:
+        test, estim, bet, kw = rng.choice([t for t in E.TESTS_FOR[audit_type] if t[0] in ("alpha_mart", "betting_mart") and t[2] != "fixed_bet"])
+        con = Contest.from_dict({"id": "c", "name": "c", "risk_limit": risk or rng.choice((0.01, 0.05, 0.1, 0.3)), "cards": N,
+                                 "choice_function": Contest.SOCIAL_CHOICE_FUNCTION.SUPERMAJORITY, "n_winners": 1, "share_to_win": share,
+                                 "candidates": cands, "winner": ["A"], "audit_type": getattr(Audit.AUDIT_TYPE, audit_type),
+                                 "test": getattr(NonnegMean, test), "estim": getattr(NonnegMean, estim) if estim else None,
+                                 "bet": getattr(NonnegMean, bet) if bet else None, "test_kwargs": dict(kw), "use_style": True})
+        con.assertions = Assertion.make_supermajority_assertion(contest=con, winner="A", loser=cands[1:], share_to_win=share,
+                                                                test=con.test, estim=con.estim, bet=con.bet, test_kwargs=dict(kw))
+        return con, (test, estim, bet, kw)
     test, estim, bet, kw = rng.choice(E.TESTS_FOR[audit_type])
     if test in ("kaplan_markov", "kaplan_wald", "kaplan_kolmogorov"):
         test, estim, bet, kw = "alpha_mart", "shrink_trunc", None, {"d": 10, "f": 0}
@@ -244,11 +254,14 @@ def make_contest(rng, audit_type, N, ncand=3, risk=None):
 def run_comparison(case, rng, rec):
     N = rng.choice((10, 37, 100, 500, 1000, case["Nmax"]))
     at = rng.choice(("CARD_COMPARISON", "ONEAUDIT"))
-    ok, mk = rec.guard("c16.call:make_assertions", make_contest, rng, at, N, 2)
+    share = rng.choice((None, None, 0.4, 2 / 3, 0.25, 0.6))   # assorter bounds 1, 1.25, 0.75, 2, 0.833
+    ok, mk = rec.guard("c16.call:make_assertions", make_contest, rng, at, N, 2, None, share)
     if not ok:
         return
     con, tcfg = mk
     asn = next(iter(con.assertions.values()))
+    if share is not None:
+        rec.count("comparison_checked_assorter_bound_not_1")
     v = rng.choice((2 / N, 0.01, 0.05, 0.1, 0.25, 0.5))
     r1, r2 = rng.choice(RATES), rng.choice(RATES)
     ua = asn.assorter.upper_bound
